@@ -49,7 +49,7 @@ META = dict(
 )
 MODULE = "OPM.Properties.C32"
 REQUIRED = ["OPM.C32.roles_from_last_uodinfo", "OPM.C32.run_events_preserve_roles", "OPM.C32.history_protection",
-            "OPM.C32.stored_run_carries_unit_roles", "OPM.C32.C32_partial", "OPM.C32.C32_counterexample", "OPM.C32.guarded_endpoint_refuses",
+            "OPM.C32.stored_run_carries_unit_roles", "OPM.C32.run_event_row_carries_unit_roles", "OPM.C32.C32_partial", "OPM.C32.C32_counterexample", "OPM.C32.guarded_endpoint_refuses",
             "OPM.C32.guarded_endpoint_admits", "OPM.C32.no_roles_required_open", "OPM.C32.unit_listing_only_accessible",
             "OPM.C32.run_listing_only_accessible", "OPM.C32.has_access_source_is_hasAccess",
             "OPM.C32.listing_contains_accessible", "OPM.C32.non_lsp_routes_guarded", "OPM.C32.unguarded_routes",
@@ -158,6 +158,8 @@ class App:
         DMdl.DBModel.metadata.drop_all(database._engine)
         DMdl.DBModel.metadata.create_all(database._engine)
         self.agg._engine_data_map.clear()
+        # per-engine memory of the aggregator that outlives a registration (method version after re-registration)
+        getattr(self.agg.from_engine, "_last_method_versions", {}).clear()
         self.calls.clear()
         for oid, req in world["units"]:
             self.agg._engine_data_map[oid] = engine_data(oid, req)
